@@ -20,7 +20,8 @@ def bodyOf (j : Json) : Body :=
   ⟨jB (jF j "coro"), sigOf (jF j "sig"), fun i => sc[i]?.getD (.ret ⟨999999, 999999⟩)⟩
 
 def guardOf (j : Json) : Guard :=
-  ⟨jB (jF j "wantsArgs"), jB (jF j "selfFirst"), jB (jF j "isStatic"), jN (jF j "nDeco"), jB (jF j "marker")⟩
+  ⟨jB (jF j "wantsArgs"), jB (jF j "selfFirst"), jB (jF j "isStatic"), jN (jF j "nDeco"), jB (jF j "marker"),
+   jB (jF j "isMethodObj"), jB (jF j "notFunction")⟩
 
 def seenOf (j : Json) (at_ : Nat) : Seen := ⟨jB (jAt j at_), jB (jAt j (at_ + 1)), jB (jAt j (at_ + 2))⟩
 
@@ -108,7 +109,7 @@ def specCallsJ (outs : List SOut) : List Json :=
       let k := o.incrs.length
       let sums := (List.range k).map (fun i => upto.foldl (fun acc s => acc + (s.incrs[i]?.getD 0)) (0 : Int))
       mkObj [("res", tagJ o.res), ("calls", jArr (o.calls.filterMap evJ)), ("warns", jNat o.warns),
-             ("counters", jArr (sums.map jInt)), ("unspec", jBool (upto.any (·.unspec)))])
+             ("counters", jArr (sums.map jInt)), ("unspec", jBool (upto.any (·.unspec))), ("mayReject", jBool o.mayReject)])
 
 def kindOfMember (s : String) : MemberKind :=
   match s with
@@ -158,17 +159,24 @@ def handleCall (c : Json) : Json :=
   let w0 : World := ⟨0, 0⟩
   let mem := jF c "member"
   let selfJ := jF c "self"
+  -- a bound method object handed to the decorator call (`require_kwargs(obj.method)`): the instance is bound BELOW the decorators
+  let innerJ := jF c "innerSelf"
+  let raw : Fn := if jIsNull innerJ then .body body else .bound (jN innerJ) (.body body)
+  let sraw : SFn := if jIsNull innerJ then .body body else .bound (jN innerJ) (.body body)
   -- the stack above the raw function
-  match buildStack other (.body body) (.body body) (jL (jF c "layers")) with
+  match buildStack other raw sraw (jL (jF c "layers")) with
   | .error e => mkObj [("error", jStr e)]
   | .ok (stack, sstack) =>
     -- member of a decorated class / plain method access / plain function
     let built : Except String (Except Exc Fn × SFn × Fn × Option String) :=
       if jIsNull mem then
-        if jIsNull selfJ then .ok (stack, sstack, .body body, none)
+        -- what attribute access binds in front of the undecorated twin (default: what it binds in front of the decorated callable)
+        let twinJ := if jIsNull (jF c "twinSelf") then (if jIsNull innerJ then selfJ else innerJ) else jF c "twinSelf"
+        let twin : Fn := if jIsNull twinJ || jN twinJ == 0 then .body body else .bound (jN twinJ) (.body body)
+        if jIsNull selfJ then .ok (stack, sstack, twin, none)
         else
           let s := jN selfJ
-          .ok (stack.map (Fn.bound s), .bound s sstack, .bound s (.body body), none)
+          .ok (stack.map (Fn.bound s), .bound s sstack, twin, none)
       else
         let k := kindOfMember (jS (jF mem "kind"))
         let acc := accessOf (jS (jF mem "access"))
@@ -217,7 +225,76 @@ def handleCall (c : Json) : Json :=
              ("classObs", jArr classObs), ("specHasName", jArr specHas),
              ("region", match region with | some r => jStr r | none => Json.null)]
 
+/-- a layer of a stack that grows between calls, as far as the `num_calls` entry of its wrapper's `__dict__` is concerned -/
+structure ALayer where
+  d : Deco
+  depth : Nat
+  val : Option Int
+
+def optIntJ : Option Int → Json
+  | some k => jInt k
+  | none => Json.null
+
+/-- `{"kind":"staged","body":…,"other":…,"preset":null|k,"stages":[{"layers":[…],"calls":[…]}…]}`: the function is decorated with the
+    layers of stage 1 (innermost last), called, the RESULT is decorated with the layers of stage 2, called, … — decoration of callables
+    that already carry attributes.  `preset`: a `num_calls` attribute set by hand on the raw function.  Per call: the model's events,
+    result and the `num_calls` entry of every wrapper (outermost first, null = no such entry); the specification's result, body
+    invocations, warnings and the count of every `count_calls` layer — each starting from zero at ITS decoration. -/
+def handleStaged (c : Json) : Json := Id.run do
+  let body := bodyOf (jF c "body")
+  let other := bodyOf (jF c "other")
+  let preset : Option Int := if jIsNull (jF c "preset") then none else some (jI (jF c "preset"))
+  let mut fn : Fn := .body body
+  let mut sfn : SFn := .body body
+  let mut layers : List ALayer := []
+  let mut w : World := ⟨0, 0⟩
+  let mut sw : World := ⟨0, 0⟩
+  let mut scounts : List Int := []
+  let mut unspec := false
+  let mut modelOut : List Json := []
+  let mut specOut : List Json := []
+  let mut err : Option String := none
+  for st in jL (jF c "stages") do
+    for l in (jL (jF st "layers")).reverse do
+      let name := jS (jF l "d")
+      match findDeco name, Kind.ofName name with
+      | some d, some k =>
+        let p := paramsOf other l
+        let carried := match layers with
+          | [] => preset
+          | top :: _ => top.val
+        match select d fn.isCoro with
+        | .identity => pure ()
+        | _ => layers := ⟨d, fn.depth, attrAfterDecorate d fn.isCoro carried⟩ :: layers
+        match decorate d p fn with
+        | .ok f => fn := f
+        | .error _ => err := some s!"decoration of {name} failed"
+        sfn := .layer k p sfn
+        if k == Kind.countCalls then scounts := 0 :: scounts
+      | _, _ => err := some s!"unknown decorator {name}"
+    let mut mcalls : List Json := []
+    let mut scalls : List Json := []
+    for aj in jL (jF st "calls") do
+      let a := argsOf aj
+      let o := invoke fn a w
+      w := o.2.2
+      layers := layers.map (fun l => { l with val := attrAfterCall l.d l.depth o.2.1 l.val })
+      mcalls := mcalls ++ [mkObj [("evs", jArr (o.2.1.filterMap evJ)), ("res", tagJ o.1.tag), ("attrs", jArr (layers.map (fun l => optIntJ l.val)))]]
+      let so := spec sfn 0 a sw
+      sw := so.w
+      scounts := (List.zip scounts so.incrs).map (fun ab => ab.1 + ab.2)
+      unspec := unspec || so.unspec
+      scalls := scalls ++ [mkObj [("res", tagJ so.res), ("calls", jArr (so.calls.filterMap evJ)), ("warns", jNat so.warns),
+                                  ("counters", jArr (scounts.map jInt)), ("unspec", jBool unspec), ("mayReject", jBool so.mayReject)]]
+    modelOut := modelOut ++ [mkObj [("calls", jArr mcalls), ("meta", jBool fn.metaOk), ("coro", jBool fn.isCoro)]]
+    specOut := specOut ++ [mkObj [("calls", jArr scalls), ("meta", jBool true), ("coro", if sfn.allDedicated then jBool sfn.isCoro else Json.null)]]
+  match err with
+  | some e => return mkObj [("error", jStr e)]
+  | none => return mkObj [("model", jArr modelOut), ("spec", jArr specOut)]
+
 def handle (c : Json) : Json :=
-  if jS (jF c "kind") == "attrs" then handleAttrs c else handleCall c
+  if jS (jF c "kind") == "attrs" then handleAttrs c
+  else if jS (jF c "kind") == "staged" then handleStaged c
+  else handleCall c
 
 end PedVerif.Drv.Utility
